@@ -818,3 +818,11 @@ Check SrcTie2Events.EV_fs_comp_read_shape.
 Theorem C14_tie_EV_fs_comp_read_shape : ltac:(let t := type of SrcTie2Events.EV_fs_comp_read_shape in exact t).
 Proof. exact SrcTie2Events.EV_fs_comp_read_shape. Qed.
 Print Assumptions C14_tie_EV_fs_comp_read_shape.
+
+(* ---------- Tie A, level 1 for the repair loop (tools/src2v3_repair.py -> gen/Src3r.v): `convert_to_archive` as
+   translated from /repo on every run is simulated by Repair.repair for every source, fuel and writer state ---------- *)
+From MLA Require SrcTie3Repair SrcTie3RepairLoop.
+Check SrcTie3RepairLoop.convert_to_archive_sim.
+Theorem C14_tie_convert_to_archive_sim : ltac:(let t := type of SrcTie3RepairLoop.convert_to_archive_sim in exact t).
+Proof. exact SrcTie3RepairLoop.convert_to_archive_sim. Qed.
+Print Assumptions C14_tie_convert_to_archive_sim.
